@@ -12,7 +12,7 @@ from checks.sibcomp import WB, API, request, split_reply, vbits
 from vlib import paths
 from vlib.proto import hexs
 
-LEAN_TARGETS = ["LyModel.Props.C04", "LyModel.Props.C04Rb"]
+LEAN_TARGETS = ["LyModel.Props.C04", "LyModel.Props.C04Rb", "LyModel.Props.C04Mk"]
 AUDIT = "Audit/C04.lean"
 GENERATED = ["Consts"]
 ASSUMPTIONS = [
@@ -25,9 +25,13 @@ ASSUMPTIONS = [
     "instances) is Rb.mergeTree, compared the same way (op rbm); the lyds_pool of lyd_dup_siblings_to_parent / "
     "lyd_merge is not in the Lean model: the white-box harness checks in-order = sibling order and the red-black "
     "invariants on the real structure after every op",
-    "key types of the generated schemas: int32, uint8, string (type plugins' sort callbacks: numeric / strcmp)",
-    "ops outside the model's fragment (lyd_move_nodes of a multi-node list, dup, merge, validate, implicit, opaque nodes "
-    "through insert_before/after, second key leaf) are judged by the C-side battery only",
+    "key types of the generated schemas: int32, uint8, string (type plugins' sort callbacks: numeric / strcmp); lists with 1, 2 and 3 keys",
+    "lists with several keys: the model key is the tuple of the key-leaf values compared key by key (Key.tup); lyd_new_list2, "
+    "lyd_new_path (container / list-with-all-keys / final-leaf paths), lyd_find_sibling_val by all keys and lyd_change_term of a "
+    "key leaf are modelled and compared (family multikey, schema S4)",
+    "ops outside the model's fragment (lyd_move_nodes of a multi-node list in the forest layer, dup, merge, validate, implicit, "
+    "opaque nodes through insert_before/after, second key leaf) are judged by the C-side battery only; lyds_split and "
+    "lyd_merge DESTRUCT (lyds pool, lyds_insert2) are compared at the red-black shape level (ops s<idx>, rbd)",
 ]
 TRUSTED = ["harness/sib_common.h consistency battery (written against the public structures, ordering oracle independent of libyang)"]
 
@@ -369,7 +373,7 @@ def rb_scripts(cx, schs):
     hmin = ht_min_items()
     scripts = []
     # (a) exhaustive: every insert/remove script of <= L ops over 2 keys, and over 3 keys one op shorter
-    for q in rbs_enumerate(2, cx.n(7, 9)) + rbs_enumerate(3, cx.n(6, 7)):
+    for q in rbs_enumerate(2, cx.n(7, 9)) + rbs_enumerate(3, cx.n(5, 7)):
         scripts.append(("exh", q))
     # (b) exhaustive removal orders: n distinct keys (n <= 7) inserted in some order, then removed in EVERY order
     for n in range(2, 8):
@@ -399,11 +403,21 @@ def rb_scripts(cx, schs):
             r = rng.random()
             if live == 0 or r < (0.75 if live < target else 0.3):
                 q.append("i%d" % rng.randrange(-dom, dom)); live += 1
-            elif r < 0.9:
+            elif r < 0.88:
                 q.append("u%d" % rng.randrange(live)); live -= 1
-            else:
+            elif r < 0.94:
                 q.append("m%d" % rng.randrange(live))
+            else:
+                # lyd_unlink_siblings from the middle (lyds_split), rarely from the leader
+                j = rng.randrange(live) if (live < 2 or rng.random() < 0.2) else rng.randrange(max(1, live // 2), live)
+                q.append("s%d" % j); live = j
         scripts.append(("random", q))
+    # (d) lyds_split exhaustively: n <= 7 distinct keys in a sampled insertion order, split at every position
+    for n in range(2, 8):
+        for _ in range(cx.n(3, 30)):
+            io = rng.sample(range(n), n)
+            for j in range(n):
+                scripts.append(("split", ["i%d" % (k + 1) for k in io] + ["s%d" % j, "i0", "i9"]))
     lines = ["%d sib rbs c %s %s %s" % (i, sch.desc_tok, sch.yang_tok, ",".join(q)) for i, (_, q) in enumerate(scripts)]
     lines.append("%d sib rbleak" % len(scripts))
     ri = cx.run_impl(WB, lines, component="sib")
@@ -411,7 +425,7 @@ def rb_scripts(cx, schs):
     crossed = 0
     for i, (kind, q) in enumerate(scripts):
         a, b = ri.get(str(i), ["err", "NoReply"]), rm.get(str(i), ["err", "NoReply"])
-        nrem = sum(1 for t in q if t[0] in "um")
+        nrem = sum(1 for t in q if t[0] in "ums")
         cx.count(("rbs", tuple(q)), nrem > 0, "sib:rbs:%s" % kind)
         cx.dist["sib:rbs:removals"] += nrem
         if a != b:
@@ -498,6 +512,53 @@ def rb_merges(cx, schs):
         cx.fail("sib", "red-black nodes / lyds_tree metadata leaked by bulk moves (lyds_merge)", {"reply": a, "attrib": None})
 
 
+def rb_destruct_merges(cx, schs):
+    """lyd_merge_siblings(…, LYD_MERGE_DESTRUCT) of two containers whose system-ordered leaf-lists were built by insert/unlink
+    scripts: the source tree goes to the lyds pool (lyds_pool_add), the instances the target lacks are moved by lyds_insert2
+    (reusing pooled red-black nodes and metadata; lyds_additionally_reuse_rb_tree when the target leader has no tree), the
+    rest is released (lyds_pool_clean).  Shape, metadata position, verdict and order vs the model; leak check at the end."""
+    sch = schs["S1"]
+    rng = cx.sub_rng("rbd")
+    cases = []
+    seqs = [list(t) for n in range(0, 4) for t in itertools.permutations([1, 2, 3, 4], n)]
+    for d in seqs:
+        for s_ in seqs:
+            if s_:
+                cases.append(("exh", ["i%d" % k for k in d], ["i%d" % k for k in s_]))
+
+    def rnd_script(n, dom):
+        vals = rng.sample(range(-dom, dom), min(n + 3, 2 * dom))
+        q, live = [], 0
+        for v in vals:
+            q.append("i%d" % v); live += 1
+            if live > 1 and rng.random() < 0.2:
+                q.append("u%d" % rng.randrange(live)); live -= 1
+        return q
+    for _ in range(cx.n(400, 5000)):
+        dom = rng.choice([4, 10, 40, 1000])
+        cases.append(("random", rnd_script(rng.choice([0, 1, 2, 3, 6, 12, 25]), dom), rnd_script(rng.choice([1, 2, 3, 6, 12, 25]), dom)))
+    lines = ["%d sib rbd c %s %s %s %s" % (i, sch.desc_tok, sch.yang_tok, ",".join(d) or "-", ",".join(s_) or "-") for i, (_, d, s_) in enumerate(cases)]
+    lines.append("%d sib rbleak" % len(cases))
+    ri = cx.run_impl(WB, lines, component="sib")
+    rm = cx.run_model(lines)
+    for i, (kind, d, s_) in enumerate(cases):
+        a, b = ri.get(str(i), ["err", "NoReply"]), rm.get(str(i), ["err", "NoReply"])
+        cx.count(("rbd", tuple(d), tuple(s_)), True, "sib:rbd:%s" % kind)
+        if a != b:
+            cx.disagree("sib-rbd", "rbd dst=%s src=%s" % (",".join(d), ",".join(s_)), " ".join(a)[:300], " ".join(b)[:300])
+            continue
+        toks = a[1:]
+        v = [t for t in toks if t.startswith("V")]
+        order = [int(t.split(":")[0]) for t in toks[toks.index("=") + 1:]] if "=" in toks else []
+        if (v and v[0] != "V0") or order != sorted(order):
+            cx.fail("sib", "red-black tree / sibling order broken after lyd_merge_siblings with LYD_MERGE_DESTRUCT (lyds pool)",
+                    {"dst": d, "src": s_, "state": " ".join(a)[:300], "attrib": None})
+    a, b = ri.get(str(len(cases)), ["err", "NoReply"]), rm.get(str(len(cases)), ["err", "NoReply"])
+    cx.count(("rbd", "leak"), True, "sib:rbd:leakcheck")
+    if a != b:
+        cx.fail("sib", "red-black nodes / lyds_tree metadata leaked by lyd_merge DESTRUCT (lyds pool)", {"reply": a, "attrib": None})
+
+
 def corpus_scripts():
     d = os.path.join(paths.CORPUS, "sib")
     out = []
@@ -559,6 +620,7 @@ def run(cx):
     rb_shapes(cx, schs)
     rb_scripts(cx, schs)
     rb_merges(cx, schs)
+    rb_destruct_merges(cx, schs)
 
     # 3. laws on the implementation
     perm_law(cx, schs)
@@ -579,6 +641,9 @@ def run(cx):
     for sn in ("S1", "S2", "S3"):
         dm += [(sn, ops) for ops in dup_move_scripts(rng, schs[sn], cx.n(100, 1200))]
     law_scripts(cx, schs, dm, kind="law-dup-move", present=present)
+    rng = cx.sub_rng("multikey-diff")
+    differential_scripts(cx, schs, [("S4", ops) for ops in multikey_diff_scripts(rng, cx.n(400, 4000))], variant, kind="multikey",
+                         quick_search=(cx.tier == "quick"))
     rng = cx.sub_rng("multikey")
     law_scripts(cx, schs, [("S4", ops) for ops in multikey_scripts(rng, cx.n(400, 4000))], kind="law-multikey", present=present)
 
@@ -689,6 +754,77 @@ def multikey_scripts(rng, n):
         for _k in range(rng.randint(0, 3)):
             name, vals, i = rng.choice(made)
             ops.append(rng.choice(["unlink,%d" % i, "dup,%d,-,0" % i, "dup,%d,%s,0" % (i, "-" if name == "t2" else 1), "ins_child,%d,1" % i if name != "t2" else "unlink,%d" % i]))
+        out.append(ops)
+    return out
+
+
+def multikey_diff_scripts(rng, n):
+    """Differential family (schema S4): lists with two / three keys (system- and user-ordered, nested, top-level) created
+    through key predicates in schema order and in any other order (lyd_new_list2, lyd_new_path with and without a parent,
+    absolute and relative, existing prefixes, existing instances -> LY_EEXIST), non-key children, unlink / free / re-insert,
+    and lyd_find_sibling_val by the whole key tuple (predicates in any order, present and absent tuples); the model keeps the
+    key TUPLE of every instance and must produce the same return code, forest dump (key leaves in schema order, instances
+    sorted key by key, identities) and search result after every op."""
+    out = []
+
+    def kv(kt, small):
+        pool = [v for v in sibcomp.POOL[kt] if "'" not in v and v != ""] or ["1"]
+        return rng.choice(pool[:3] if small else pool)
+
+    def preds(name, vals, order=None):
+        ks = MK_LISTS[name]
+        idx = list(range(len(ks)))
+        if order == "rev":
+            idx.reverse()
+        elif order == "rnd":
+            rng.shuffle(idx)
+        return "".join("[%s='%s']" % (ks[i][0], vals[i]) for i in idx)
+    for _ in range(n):
+        small = rng.random() < 0.5          # few distinct values: equal first keys, duplicates, EEXIST
+        ops = [sibcomp.op_new(1, None, "sdd:c", b"")]
+        if rng.random() < 0.6:      # >= 4 children: the children hash table exists
+            ops += [sibcomp.op_new(2, 1, "sdd:a", b"x"), sibcomp.op_new(3, 1, "sdd:e", b"x"), sibcomp.op_new(4, 1, "sdd:sll", b"1"), sibcomp.op_new(5, 1, "sdd:sll", b"2")]
+        made, nid = [], 10
+        for _k in range(rng.randint(3, 10)):
+            name = rng.choice(["m2", "m2", "mu", "m3", "t2"])
+            vals = [kv(kt, small) for _, kt in MK_LISTS[name]]
+            if made and rng.random() < 0.25:
+                name, vals = rng.choice(made)[:2]          # an instance that exists already
+            order = rng.choice([None, "rev", "rev", "rnd"])
+            how = rng.random()
+            top = name == "t2"
+            if how < 0.45:
+                ops.append("newlist2,%d,%s,sdd:%s,%s" % (nid, "-" if top else 1, name, hexs(preds(name, vals, order).encode())))
+            elif how < 0.75:
+                path = ("/sdd:t2" if top else "/sdd:c/" + name) + preds(name, vals, order) + rng.choice(["", "/v"])
+                ops.append("newpath,%d,%s,%s,%s" % (nid, rng.choice(["-", "1"]), hexs(path.encode()), hexs(b"val")))
+            else:
+                path = ("/sdd:t2" if top else name) + preds(name, vals, order)
+                if name == "m2" and rng.random() < 0.5:
+                    path += "/in" + preds("in", [kv("u8", small), kv("str", small)], rng.choice([None, "rev"])) + rng.choice(["", "/v"])
+                ops.append("newpath,%d,%s,%s,%s" % (nid, "-" if top else "1", hexs(path.encode()), hexs(b"val")))
+            made.append((name, vals, nid))
+            nid += 1
+            if rng.random() < 0.3 and not top:
+                ops.append(sibcomp.op_new(nid, made[-1][2], "sdd:v", b"q"))
+                nid += 1
+            if rng.random() < 0.5:
+                # search by the whole tuple, predicates in another order; sometimes an absent tuple
+                nm = rng.choice(["m2", "mu", "m3"])
+                cand = [m for m in made if m[0] == nm]
+                vals2 = list(rng.choice(cand)[1]) if cand and rng.random() < 0.7 else [kv(kt, small) for _, kt in MK_LISTS[nm]]
+                anchors = ([2, 3, 4] if len(ops) > 4 and ops[1].startswith("new,2") else []) + [m[2] for m in made if m[0] != "t2"]
+                if anchors:
+                    ops.append("findkeys,%d,sdd:%s,%s" % (rng.choice(anchors), nm, hexs(preds(nm, vals2, rng.choice([None, "rev", "rnd"])).encode())))
+        for _k in range(rng.randint(0, 3)):
+            # lyd_change_term of an automatically numbered node: a key leaf (the instance is re-sorted and re-hashed by the
+            # new tuple) or a plain leaf
+            ops.append("change,%d,%s" % (2000 + rng.randrange(0, 12), hexs(rng.choice(["1", "2", "7", "a", "b"]).encode())))
+        for _k in range(rng.randint(0, 4)):
+            name, vals, i = rng.choice(made)
+            ops.append(rng.choice(["unlink,%d" % i, "free,%d" % i, "ins_child,%d,1" % i if name != "t2" else "unlink,%d" % i,
+                                   "newlist2,%d,%s,sdd:%s,%s" % (nid, "-" if name == "t2" else 1, name, hexs(preds(name, vals, "rev").encode()))]))
+            nid += 1
         out.append(ops)
     return out
 
